@@ -239,13 +239,30 @@ def _check_rmq(case):
     from superrec2.utils.range_min_query import RangeMinQuery
 
     arr = case["array"]
-    rmq = RangeMinQuery(list(arr))
+    # the data is any sequence of elements that support `<` (the declared protocol): by content hash a list, a tuple, a
+    # deque (a sequence without slicing), or a list of wrappers that define __lt__ and nothing else
+    import collections
+
+    variant = (sum(arr) + len(arr)) % 4
+
+    class OnlyLt:
+        __slots__ = ("v",)
+
+        def __init__(self, v):
+            self.v = v
+
+        def __lt__(self, other):
+            return self.v < other.v
+
+    data = [list(arr), tuple(arr), collections.deque(arr), [OnlyLt(x) for x in arr]][variant]
+    rmq = RangeMinQuery(data)
+    unwrap = (lambda x: None if x is None else x.v) if variant == 3 else (lambda x: x)
     evals = 0
     for a in range(len(arr) + 1):
         for b in range(len(arr) + 1):
             exp = min(arr[a:b]) if a < b else None
-            got = rmq(a, b)
+            got = unwrap(rmq(a, b))
             evals += 1
             if got != exp:
-                raise Violation("rmq.range", observed=got, expected=exp, extra={"start": a, "stop": b})
+                raise Violation("rmq.range", observed=got, expected=exp, extra={"start": a, "stop": b, "data": type(data).__name__, "variant": variant})
     return Result(len(arr) >= 2, ["rmq", f"len={min(len(arr), 10)}{'+' if len(arr) >= 10 else ''}"], evals=evals)
